@@ -71,29 +71,39 @@ impl Work<Context, AnyWorkId, Error> for VerticalMetricsWork {
             .at(static_metadata.default_location());
 
         // Collate vertical metrics
-        let builder =
-            glyph_order
-                .iter()
-                .fold(MetricsBuilder::default(), |mut builder, (_gid, gn)| {
-                    let glyph = context.ir.get_glyph(gn.clone());
-                    let instance = glyph.default_instance();
+        let builder = glyph_order.iter().try_fold(
+            MetricsBuilder::default(),
+            |mut builder, (_gid, gn)| -> Result<_, Error> {
+                let glyph = context.ir.get_glyph(gn.clone());
+                let instance = glyph.default_instance();
+                // vmtx advances are u16: reject what would otherwise be silently clamped
+                if let Some(height) = instance.height {
+                    let rounded: f64 = height.ot_round();
+                    if !(0.0..=u16::MAX as f64).contains(&rounded) {
+                        return Err(Error::OutOfBounds {
+                            what: format!("advance height of glyph '{gn}'"),
+                            value: height.to_string(),
+                        });
+                    }
+                }
 
-                    // https://github.com/googlefonts/ufo2ft/blob/2f11b0ff/Lib/ufo2ft/outlineCompiler.py#L882-L890
-                    let advance = instance.height(&default_metrics);
-                    let vertical_origin = instance.vertical_origin(&default_metrics);
+                // https://github.com/googlefonts/ufo2ft/blob/2f11b0ff/Lib/ufo2ft/outlineCompiler.py#L882-L890
+                let advance = instance.height(&default_metrics);
+                let vertical_origin = instance.vertical_origin(&default_metrics);
 
-                    let glyph = context.glyphs.get(&WorkId::GlyfFragment(gn.clone()).into());
+                let glyph = context.glyphs.get(&WorkId::GlyfFragment(gn.clone()).into());
 
-                    let side_bearing = vertical_origin
-                        - glyph.data.bbox().map(|bbox| bbox.y_max).unwrap_or_default();
-                    let bounds_advance = glyph
-                        .data
-                        .bbox()
-                        .map(|bbox| bbox.y_max as i32 - bbox.y_min as i32);
+                let side_bearing =
+                    vertical_origin - glyph.data.bbox().map(|bbox| bbox.y_max).unwrap_or_default();
+                let bounds_advance = glyph
+                    .data
+                    .bbox()
+                    .map(|bbox| bbox.y_max as i32 - bbox.y_min as i32);
 
-                    builder.update(advance, side_bearing, bounds_advance);
-                    builder
-                });
+                builder.update(advance, side_bearing, bounds_advance);
+                Ok(builder)
+            },
+        )?;
 
         let metrics = builder.build();
 
